@@ -327,7 +327,7 @@ def replay_tours(chk, col, bindir, tier, max_paths_two=None, tag=""):
             col.add(r, "replay")
             # compare step by step
             runs = split_sched(r.events)
-            if len(runs) != len(plan) and not r.info.get("timeout") and not r.killed:
+            if len(runs) != len(plan) and not r.info.get("timeout") and not r.killed and not r.info.get("crash"):
                 raise core.ToolError("replay run %s: %d sched blocks for %d paths" % (r.name, len(runs), len(plan)))
             for (path, toks, exp), evs in zip(plan, runs):
                 stats["paths"] += 1
